@@ -1011,6 +1011,32 @@ def _find_self(
     return kwargs["self"]
 
 
+def rebuild_property(
+    prop: property,
+    fget: Optional[Callable[..., Any]],
+    fset: Optional[Callable[..., Any]],
+    fdel: Optional[Callable[..., Any]],
+) -> property:
+    """
+    Create a property like ``prop`` with the given accessors.
+
+    A sub-class of ``property`` is copied through its own ``getter``, ``setter`` and ``deleter`` so that the result is
+    of the same class and keeps the behaviour which the sub-class adds.
+    """
+    if type(prop) is property:  # pylint: disable=unidiomatic-typecheck
+        return property(fget=fget, fset=fset, fdel=fdel, doc=prop.__doc__)
+
+    new_prop = prop
+    if fget is not prop.fget:
+        new_prop = new_prop.getter(fget)  # type: ignore
+    if fset is not prop.fset:
+        new_prop = new_prop.setter(fset)  # type: ignore
+    if fdel is not prop.fdel:
+        new_prop = new_prop.deleter(fdel)  # type: ignore
+
+    return new_prop
+
+
 def _decorate_new_with_invariants(new_func: CallableT) -> CallableT:
     """
     Decorate the ``__new__`` of a class s.t. the invariants are checked on the result.
@@ -1394,5 +1420,5 @@ def add_invariant_checks(cls: ClassT) -> None:
             else None
         )
         if fget is not prop.fget or fset is not prop.fset or fdel is not prop.fdel:
-            new_prop = property(fget=fget, fset=fset, fdel=fdel, doc=prop.__doc__)
+            new_prop = rebuild_property(prop=prop, fget=fget, fset=fset, fdel=fdel)
             setattr(cls, name, new_prop)
